@@ -143,7 +143,11 @@ def run(ctx):
     fast = [r for r in astq.walk_fn(dm.node) if isinstance(r, ast.Return) and "lower()" in astq.text(r)]
     ok = any(astq.text(r.value) in ("bool(dn.lower() == hostname.lower())", "dn.lower() == hostname.lower()") for r in fast)
     g = astq.enclosing(fast[0], ast.If) if fast else None
-    ctx.ob(R1, dm.qual, "without wildcard: exact case-insensitive equality", ok and g is not None and astq.text(g.test) == "not wildcards")
+    okg = False
+    if g is not None and isinstance(g.test, ast.UnaryOp) and isinstance(g.test.op, ast.Not) and isinstance(g.test.operand, ast.Name):
+        srcs_ = astq.assigned_values(dm.node, g.test.operand.id)
+        okg = any(isinstance(x, ast.Call) and isinstance(x.func, ast.Attribute) and x.func.attr == "count" for x in srcs_)
+    ctx.ob(R1, dm.qual, "without wildcard: exact case-insensitive equality", ok and okg)
 
     # ------------------------------------------------------------------ R2 wildcard budget / R3 IDN
     R2 = ctx.rule("C08-R2", "more than max_wildcards (default 1) wildcards in the left-most label raise; wildcards are counted in the left-most label only", "E5")
@@ -205,9 +209,9 @@ def run(ctx):
                 return [Out("normal", st, AV("obj", "ip", truth=True, none=False)), Out("raise", st.copy(), exc("builtins.ValueError"))]
             if t in ("_dnsname_match", "_ipaddress_match"):
                 s = st.copy()
-                hip = s.view(s.env.get(it.var("host_ip"), UNK))
+                hip = s.view(s.env.get(it.var(host_ip_name), UNK))
                 keyv = s.view(pos[0]) if pos else UNK
-                s.ts["consults"] = s.ts.get("consults", ()) + ((t, hip.none, self._key_of(s, it), s.view(s.env.get(it.var("dnsnames"), UNK)).truth,
+                s.ts["consults"] = s.ts.get("consults", ()) + ((t, hip.none, self._key_of(s, it), s.view(s.env.get(it.var(list_name), UNK)).truth,
                                                                s.facts.get("p:hostname_checks_common_name", (None, None))[0]),)
                 return [Out("normal", s, AV("unk", sym=f"match@{len(s.ts['consults'])}"))]
             if isinstance(node.func, ast.Attribute) and node.func.attr == "append" and recv is not None and "list" in recv.tags:
@@ -229,6 +233,17 @@ def run(ctx):
                     return k[3]
             return None
 
+    # locals by role, not by name
+    host_ip_name = None
+    list_name = None
+    for n_ in astq.walk_fn(mh.node):
+        if isinstance(n_, ast.Assign) and isinstance(n_.targets[0], ast.Name):
+            if isinstance(n_.value, ast.Call) and astq.call_text(n_.value) == "ipaddress.ip_address":
+                host_ip_name = n_.targets[0].id
+            if isinstance(n_.value, ast.List) and not n_.value.elts:
+                list_name = n_.targets[0].id
+    if host_ip_name is None or list_name is None:
+        raise AnalysisError("match_hostname: parsed-host-IP local / seen-names list not found")
     drule = DispatchRule()
     outs, it = run_function(m, mh, drule, params={"cert": AV("unk", sym="p:cert", truth=True, none=False)}, record_decisions=True)
     ctx.states += it.budget.steps
@@ -302,7 +317,7 @@ def run(ctx):
     norm = [n for n in astq.walk_fn(af.node) if isinstance(n, ast.Assign) and astq.text(n.targets[0]) == "fingerprint"]
     ok = any("replace(':', '')" in astq.text(n.value).replace('"', "'") and ".lower()" in astq.text(n.value) for n in norm)
     ctx.ob(R7, af.qual, "pin is normalised: colons removed, lower-cased", ok)
-    ln = [n for n in astq.walk_fn(af.node) if isinstance(n, ast.Assign) and astq.text(n.value) == "len(fingerprint)"]
+    ln = [n for n in astq.walk_fn(af.node) if isinstance(n, ast.Assign) and astq.text(n.value) == "len(fingerprint)"]  # `fingerprint` is the parameter
     ctx.ob(R7, af.qual, "length is taken after normalisation", bool(ln) and bool(norm) and ln[0].lineno > max(n.lineno for n in norm))
     # HASHFUNC_MAP table
     st_ = m.assigns.get(SSLU, {}).get("HASHFUNC_MAP")
@@ -329,7 +344,11 @@ def run(ctx):
             ds = None
         ctx.ob(R7, SSLU, f"length {length} selects {alg} (digest size {ds})", ds is not None and ds * 2 == length and alg in ("md5", "sha1", "sha256"),
                "" if ds is not None and ds * 2 == length else "pin length does not correspond to the selected digest")
-    g = [n for n in astq.walk_fn(af.node) if isinstance(n, ast.If) and astq.text(n.test) == "digest_length not in HASHFUNC_MAP"]
+    def _is_len_of_pin(e):
+        return any(isinstance(x, ast.Call) and astq.text(x) == "len(fingerprint)" for x in astq.sources_of(af.node, e))
+
+    g = [n for n in astq.walk_fn(af.node) if isinstance(n, ast.If) and isinstance(n.test, ast.Compare) and isinstance(n.test.ops[0], ast.NotIn)
+         and astq.text(n.test.comparators[0]) == "HASHFUNC_MAP" and _is_len_of_pin(n.test.left)]
     ok = bool(g) and astq.all_paths_end_in(g[0].body, lambda s: isinstance(s, ast.Raise) and s.exc is not None and "SSLError" in astq.text(s.exc))
     ctx.ob(R7, af.qual, "a pin of any other length raises SSLError", ok)
     cmpn = [n for n in astq.walk_fn(af.node) if isinstance(n, ast.If) and "compare_digest" in astq.text(n.test)]
@@ -338,15 +357,20 @@ def run(ctx):
         t = astq.text(n.test)
         ok = isinstance(n.test, ast.UnaryOp) and isinstance(n.test.op, ast.Not) and isinstance(n.test.operand, ast.Call) \
             and astq.call_text(n.test.operand) == "hmac.compare_digest" and astq.all_paths_end_in(n.body, lambda s: isinstance(s, ast.Raise) and s.exc is not None and "SSLError" in astq.text(s.exc))
-        ctx.ob(R7, af.qual, f"`{t}` -> raise SSLError", ok, "" if ok else "a mismatching fingerprint is accepted", node=n)
+        ctx.ob(R7, af.qual, "`not hmac.compare_digest(digest, pin)` -> raise SSLError", ok, "" if ok else "a mismatching fingerprint is accepted", node=n)
         c = n.test.operand if isinstance(n.test, ast.UnaryOp) else None
         if isinstance(c, ast.Call) and len(c.args) == 2:
-            a_src = " ".join(astq.text(s) for a in c.args for s in astq.sources_of(af.node, a))
-            ok = "hashfunc(cert).digest()" in a_src and "unhexlify(fingerprint.encode())" in a_src
-            ctx.ob(R7, af.qual, "compares hashfunc(cert).digest() with the un-hexed pin", ok, a_src[:120], node=n)
-    hf = [n for n in astq.walk_fn(af.node) if isinstance(n, ast.Assign) and astq.text(n.targets[0]) == "hashfunc"]
-    ok = bool(hf) and astq.text(hf[0].value) in ("HASHFUNC_MAP.get(digest_length)", "HASHFUNC_MAP[digest_length]")
-    ctx.ob(R7, af.qual, "the digest is selected by the pin's length", ok)
+            srcs_all = [x for a in c.args for x in astq.sources_of(af.node, a)]
+            has_digest = any(isinstance(x, ast.Call) and isinstance(x.func, ast.Attribute) and x.func.attr == "digest" and isinstance(x.func.value, ast.Call)
+                             and [astq.text(y) for y in x.func.value.args] == ["cert"]
+                             and any(isinstance(z, ast.Call) and astq.call_text(z) in ("HASHFUNC_MAP.get", ) or (isinstance(z, ast.Subscript) and astq.text(z.value) == "HASHFUNC_MAP")
+                                     for z in astq.sources_of(af.node, x.func.value.func)) for x in srcs_all)
+            has_pin = any(isinstance(x, ast.Call) and astq.call_text(x) == "unhexlify" and "fingerprint" in astq.names_in(x) for x in srcs_all)
+            ctx.ob(R7, af.qual, "compares <selected hash>(cert).digest() with the un-hexed pin", has_digest and has_pin, "; ".join(astq.text(x)[:40] for x in srcs_all), node=n)
+    hsel = [x for n in astq.walk_fn(af.node) if isinstance(n, ast.Assign) for x in [n.value]
+            if (isinstance(x, ast.Call) and astq.call_text(x) == "HASHFUNC_MAP.get" and x.args and _is_len_of_pin(x.args[0]))
+            or (isinstance(x, ast.Subscript) and astq.text(x.value) == "HASHFUNC_MAP" and _is_len_of_pin(x.slice))]
+    ctx.ob(R7, af.qual, "the digest is selected by the pin's length", bool(hsel))
     g2 = [n for n in astq.walk_fn(af.node) if isinstance(n, ast.If) and astq.text(n.test) == "cert is None"]
     ok = bool(g2) and astq.all_paths_end_in(g2[0].body, lambda s: isinstance(s, ast.Raise))
     ctx.ob(R7, af.qual, "no certificate -> raise", ok)
